@@ -1,7 +1,9 @@
 package main
 
 import (
+	"fmt"
 	"go/ast"
+	"os"
 )
 
 // ---- analysis hooks -------------------------------------------------------
@@ -26,6 +28,13 @@ func (ft *ftrans) noteRead(e *env, at ast.Node, v *gvar, j int) {
 	}
 	for w := range e.writers[j] {
 		if w != v && !ft.sum.assumesDistinct(v.name, w.name) {
+			if noAliasCheck && !glueMode {
+				if !ft.emitting {
+					fmt.Fprintf(os.Stderr, "limbgen: WARNING (-noaliascheck) %s: %s: ALIASING: %s[%d] is read after %s[%d] was written\n",
+						ft.p.pos(at), ft.sum.key, v.name, j, w.name, j)
+				}
+				continue
+			}
 			ft.p.failAt(at, "%s: ALIASING: %s[%d] is read after %s[%d] was written; "+
 				"with %s == %s the functional translation would be unsound",
 				ft.sum.key, v.name, j, w.name, j, v.name, w.name)
